@@ -280,6 +280,7 @@ pub fn scenario_c18(stats: &Arc<ExecStats>) {
         match op {
             LogOp::Expand(c, d) => {
                 let va = st.valid_actions();
+                assert!(*c < va.len(), "C18 concurrent.expand_equals_sequential: thread {} expanding node {:?} chose action {} of a list that has only {} entries sequentially", t, tree[*idx].path, c, va.len());
                 let child = st.take_action(&va[*c]);
                 assert_eq!(full_digest(&child), *d, "C18 concurrent.expand_equals_sequential: thread {} expanding node {:?} with choice {}", t, tree[*idx].path, c);
             }
@@ -290,6 +291,7 @@ pub fn scenario_c18(stats: &Arc<ExecStats>) {
                 let mut s = st.clone();
                 for c in choices {
                     let va = s.valid_actions();
+                    assert!((*c as usize) < va.len(), "C18 concurrent.playout_equals_sequential: thread {} from node {:?} chose action {} of a list that has only {} entries sequentially", t, tree[*idx].path, c, va.len());
                     s = s.take_action(&va[*c as usize]);
                 }
                 assert_eq!(full_digest(&s), *d, "C18 concurrent.playout_equals_sequential: thread {} from node {:?}", t, tree[*idx].path);
@@ -486,6 +488,7 @@ pub fn cmd_run(name: &str, tier: &str, seed: u64, workers: usize, out: &str, rep
         }
     });
     let mut exit = 0;
+    let mut unreproduced = 0u64;
     for (w, kind, dir, failed, msg) in &results {
         if *failed && exit == 0 {
             let msg = msg.clone().unwrap_or_default();
@@ -505,6 +508,16 @@ pub fn cmd_run(name: &str, tier: &str, seed: u64, workers: usize, out: &str, rep
                     println!("violation: property {} under the {} scheduler: {}", prop, kind, msg);
                     println!("VIOLATION property={} replay={}", prop, path);
                     exit = 1;
+                }
+                (None, true) => {
+                    // One of this scenario's own comparisons failed, but the same runner alone in a
+                    // fresh process passes: the outcome depended on what the other runners of this
+                    // process were doing, i.e. on state the engine shares between independent
+                    // executions.  That cannot be replayed from a schedule, so it is not reported
+                    // as a violation here; it is recorded, and the preemptive part (Miri, real
+                    // threads on one shared state) is left to decide.
+                    eprintln!("note: runner {} failed ({}) but passes alone in a fresh process: the engine keeps process-wide state across executions; not replayable from a schedule, left to the Miri part", w, msg);
+                    unreproduced += 1;
                 }
                 _ => {
                     // an engine panic that is not one of this scenario's assertions (C19's business), or no schedule
@@ -540,6 +553,7 @@ pub fn cmd_run(name: &str, tier: &str, seed: u64, workers: usize, out: &str, rep
         "task_switches_at_scheduling_points": stats.switches.load(Ordering::Relaxed),
         "logged_operations": stats.ops.load(Ordering::Relaxed),
         "max_nested_link_drops": stats.max_depth.load(Ordering::Relaxed),
+        "runner_failures_not_reproduced_alone": unreproduced,
         "faults_injected_and_effective": {"fault.last_owner_release_on_arbitrary_thread": execs},
         "schedules_per_hour": if wall > 0.0 { (execs as f64 / wall * 3600.0) as u64 } else { 0 },
         "wall_s": wall,
